@@ -78,6 +78,12 @@ Step ==
          [] Op.op = "cust_mod" ->
               /\ Chk("custom_mod_result", Op.ret = CustModOk(E, Op.id), [id |-> Op.id, got |-> Op.ret])
               /\ E' = CustMod(E, Op.id, Op.bytes)
+         [] Op.op = "cust_del_name" ->
+              /\ Chk("custom_lookup", Op.ret = CustFind(E, Op.name), [name |-> Op.name, want |-> CustFind(E, Op.name), got |-> Op.ret])
+              /\ E' = IF CustFind(E, Op.name) >= 0 THEN CustDel(E, CustFind(E, Op.name)) ELSE E
+         [] Op.op = "cust_mod_name" ->
+              /\ Chk("custom_lookup", Op.ret = CustFind(E, Op.name), [name |-> Op.name, want |-> CustFind(E, Op.name), got |-> Op.ret])
+              /\ E' = IF CustFind(E, Op.name) >= 0 THEN CustMod(E, CustFind(E, Op.name), Op.bytes) ELSE E
          [] OTHER -> UNCHANGED E
 
 \* the decoded function the export `name` designates
